@@ -198,12 +198,15 @@ class DataFrameModel(BaseModel):
             zip(__parameters__, params)
         )
         extra: Dict[str, Any] = {"__annotations__": {}}
-        for field, (annot_info, field_info) in cls._collect_fields().items():
+        for annot_info, field_info in cls._collect_fields().values():
             if isinstance(annot_info.arg, TypeVar):
                 if annot_info.arg in param_dict:
                     raw_annot = annot_info.origin[param_dict[annot_info.arg]]  # type: ignore
                     if annot_info.optional:
                         raw_annot = Optional[raw_annot]
+                    # the field is re-declared under its attribute name (the
+                    # fields are collected under their alias, if they have one)
+                    field = field_info.original_name
                     extra["__annotations__"][field] = raw_annot
                     extra[field] = copy.deepcopy(field_info)
 
